@@ -94,8 +94,9 @@ class FlagEvaluator:
     """objective = 1 + row index; NaN where the flag (evaluation, realization, perturbation) holds.
     Optionally raises its own exception, or the user abort, at a given call index."""
 
-    def __init__(self, env, flags, C=0, raise_at=None, exc=None):
+    def __init__(self, env, flags, C=0, raise_at=None, exc=None, nan_col=0):
         self.env, self.flags, self.C, self.raise_at, self.exc = env, flags, C, raise_at, exc
+        self.nan_col = nan_col   # the column that carries the NaN of a failed row (0 = the objective)
         self.calls = []
 
     def __call__(self, variables, context):
@@ -112,7 +113,7 @@ class FlagEvaluator:
             p = -1 if context.perturbations is None else int(context.perturbations[i])
             fl = self.flags.get(("row", e, i), self.flags.get((e, r, p), SB(False)))
             for c in range(1 + self.C):
-                out[i, c] = SR(Fraction(1 + i + 3 * c + r), fl.t if c == 0 else False)
+                out[i, c] = SR(Fraction(1 + i + 3 * c + r), fl.t if c == self.nan_col else False)
         return EvaluatorResult(objectives=self.env.arr(out[:, :1]), constraints=self.env.arr(out[:, 1:]) if self.C else None)
 
 
